@@ -14,9 +14,11 @@ TRUSTED = [
 ASSUMPTIONS = [
     "statement granularity = CPython `line` trace events; pre-emption inside a statement (bytecode level) and the GIL hand-off are not modelled",
     "no mutation of an rruleset while iterators are live (that is C10's history domain)",
-    "the positive theorems assume the underlying generator (`self._iter()`) never raises anything but StopIteration (SInv.noraise); the raising outcome of "
-    "line 138 IS modelled (Cache.step138) and the negation is proved on the model (genraise_cached_differs): known finding D-C11-genraise, "
-    "accepted only where implementation = model (oracle case generator_raises, op query.runx)",
+    "a generator that raises something other than StopIteration is covered (Shared.endErr; finished_answer / genraise_history): it is assumed to be "
+    "DETERMINISTIC (a fresh `self._iter()` yields the same values and raises at the same position — what `_restartable` relies on when it "
+    "replaces the dead generator); on the raising path the handler statements `except Exception: if i == len(cache): raise` are one model step "
+    "with the raise (they touch only locals and the lock), so thread schedules over raising generators are judged against the uncached answers "
+    "(oracle generator_raises), not compared line by line with the model",
 ]
 RULE = ("schedules: (a) every next()-interleaving with <= 2 (thorough 3) switches of 2-3 iterators over src lengths 0,1,9,10,11,19,20,21; "
         "(b) statement granularity: 2 threads, every single pre-emption point k0, a grid of (k0,k1) double pre-emptions, 3 threads with 2 "
@@ -483,17 +485,19 @@ class Flaky(object):
 
 
 def generator_raises(ctx):
-    """the underlying generator RAISES: an uncached rule raises in every operation that reaches the raising point; a cached
-    one must behave the same.  It does not (known finding D-C11-genraise); the Lean model has the raising outcome of
-    line 138 (Cache.step138) and reproduces what the code does: a difference cached/uncached is KNOWN only when the
-    implementation equals the model in BOTH modes (query.runx)."""
+    """the underlying generator RAISES: an uncached rule raises in every operation that reaches the raising point and answers every
+    operation decided before it; a cached one must behave the same (former known finding D-C11-genraise, repaired in /repo:
+    `_restartable` + deferred read-ahead errors).  Regression stream: (1) call histories, cached vs uncached vs the Lean model in both
+    modes (query.runx; C11.genraise_history); (2) the documented witness; (3) statement-granularity thread schedules over a cached set
+    whose member raises, every thread's answer against the uncached one (C11.finished_answer with endErr = some E)."""
     from dateutil import rrule as R
     import datetime as D
     rng = ctx.subrng("genraise")
     cases = []
-    for k in (0, 1, 5, 10, 11, 15):
+    for k in (0, 1, 5, 9, 10, 11, 15, 20, 21):
         L = [7 * i + 3 for i in range(k + 3)]
-        scripts = [[("all",), ("all",), ("all",), ("cnt",), ("in", L[0])], [("idx", min(3, max(0, k - 1))), ("all",), ("all",), ("cnt",), ("idx", 0)]]
+        scripts = [[("all",), ("all",), ("all",), ("cnt",), ("in", L[0])], [("idx", min(3, max(0, k - 1))), ("all",), ("all",), ("cnt",), ("idx", 0)],
+                   [("idx", -1), ("take", k), ("take", k + 1), ("idx", k - 1), ("idx", k)]]
         for _ in range(ctx.budget(2, 12)):
             scripts.append([rrlib.random_query(rng, L[:k]) for _ in range(rng.randint(2, 6))])
         for qs in scripts:
@@ -530,24 +534,59 @@ def generator_raises(ctx):
                           % (k, ";".join(q_wire(q) for q in qs), per[False], per[True], m_unc, m_c),
                           {"kind": "genraise-model", "k": k, "qs": [list(q) for q in qs], "model_reproduces": False}, None)
     # the documented witness (a naive and an aware date: TypeError from the sort, k = 0)
-    def outcomes(cache):
-        s = R.rruleset(cache=cache)
-        s.rdate(D.datetime(2020, 1, 1)); s.rdate(D.datetime(2020, 1, 2, tzinfo=D.timezone.utc))
-        out = []
-        for op in (lambda: list(s), lambda: list(s), lambda: list(s), lambda: s.count(), lambda: D.datetime(2020, 1, 1) in s):
-            try:
-                out.append(repr(op()))
-            except Exception as ex:
-                out.append(type(ex).__name__)
-        return out
-    want, gotw = outcomes(False), outcomes(True)
+    want, gotw = genraise_witness(False), genraise_witness(True)
     ctx.case(("generator-raises-witness",), nontrivial=True)
     if gotw != want:
         ctx.violation("witness: the uncached set gives %s on list, list, list, count, in; the cached one gives %s" % (want, gotw),
-                      {"kind": "genraise", "cached": gotw, "uncached": want,
-                       "model_reproduces": gotw == GENRAISE_DOCUMENTED and want == ["TypeError"] * 5}, None)
+                      {"kind": "genraise-witness", "cached": gotw, "uncached": want}, None)
+    # statement-granularity schedules: several threads over ONE cached set whose member raises after k values
+    A = ("all",)
+    tcases = []
+    for k in (0, 1, 9, 10, 11, 21):
+        L = [7 * i + 3 for i in range(k + 3)]
+        for k0 in ([0, 7, 14, 19, 23, 27, 31, 36, 44, 58, 90] if ctx.budget(0, 1) == 0 else range(0, 120, 2)):
+            tcases.append((L, k, [A, A], [(0, k0), (1, None)]))
+        for _ in range(ctx.budget(3, 30)):
+            T = rng.randint(2, 4)
+            qs = [A if rng.random() < 0.4 else rrlib.random_query(rng, L[:k]) for _ in range(T)]
+            segs = [(rng.randrange(T), rng.choice([1, 2, 3, 4, 6, 9, 14, 22, 35, 60])) for _ in range(rng.randint(1, 12))]
+            tcases.append((L, k, qs, segs))
+    for L, k, qs, segs in tcases:
+        res, st = genraise_threads(L, k, qs, segs)
+        u = R.rruleset(cache=False)
+        u.rrule(Flaky(L, k))
+        want = [rrlib.impl_query(u, q) for q in qs]
+        ctx.case(("genraise-threads", k, tuple(qs), tuple(segs)), nontrivial=True)
+        ctx.count("generator_raises_thread_schedule")
+        if any(x != "done" for x in st) or res != want:
+            ctx.violation("the underlying generator raises after %d values; threads %s under schedule %s: statuses %s, answers %s, the uncached set answers %s"
+                          % (k, [q_wire(q) for q in qs], sched.seg_wire(segs), st, res, want),
+                          {"kind": "genraise-threads", "k": k, "L": L, "qs": [list(q) for q in qs], "segs": [list(x) for x in segs]}, None)
 
 
+def genraise_witness(cache):
+    from dateutil import rrule as R
+    import datetime as D
+    s = R.rruleset(cache=cache)
+    s.rdate(D.datetime(2020, 1, 1)); s.rdate(D.datetime(2020, 1, 2, tzinfo=D.timezone.utc))
+    out = []
+    for op in (lambda: list(s), lambda: list(s), lambda: list(s), lambda: s.count(), lambda: D.datetime(2020, 1, 1) in s):
+        try:
+            out.append(repr(op()))
+        except Exception as ex:
+            out.append(type(ex).__name__)
+    return out
+
+
+def genraise_threads(L, k, qs, segs):
+    from dateutil import rrule as R
+    s = R.rruleset(cache=True)
+    s.rrule(Flaky(L, k))
+    tr, fin, res, st = sched.run_threads(s, qs, segs)
+    return res, st
+
+
+# what the unrepaired code gave on the witness (kept for the record; the regression stream above reports it again)
 GENRAISE_DOCUMENTED = ["TypeError", "TypeError", "[]", "None", "False"]
 
 
@@ -577,11 +616,7 @@ def free_running_smoke(ctx):
         ctx.count("free_running_smoke")
 
 
-KNOWN = {
-    # a cached object differs from the uncached one after the underlying generator raised — accepted only when the implementation
-    # does exactly what the Lean model of the code (raising outcome of line 138) predicts, in both modes
-    "D-C11-genraise": lambda v: v["case"].get("kind") == "genraise" and bool(v["case"].get("model_reproduces")),
-}
+KNOWN = {}
 
 
 def replay(ctx, payload):
@@ -620,5 +655,29 @@ def replay(ctx, payload):
         print("replay nested: %d cached objects, %d distinct lock objects; schedule %s -> statuses %s answers %s"
               % (len(objs), nl, sched.seg_wire(segs), st, res))
         return all(x == "done" for x in st) and all(g == py_query(exp[o], q) for (o, q), g in zip(jobs, res))
+    if c.get("kind") in ("genraise", "genraise-model"):
+        from dateutil import rrule as R
+        L = [7 * i + 3 for i in range(c["k"] + 3)]
+        per = {}
+        for cache in (False, True):
+            s = R.rruleset(cache=cache)
+            s.rrule(Flaky(L, c["k"]))
+            per[cache] = [rrlib.impl_query(s, tuple(q)) for q in c["qs"]]
+        print("replay generator raising after %d values, queries %s: uncached %s cached %s" % (c["k"], [q_wire(tuple(q)) for q in c["qs"]], per[False], per[True]))
+        return per[False] == per[True]
+    if c.get("kind") == "genraise-witness":
+        want, got = genraise_witness(False), genraise_witness(True)
+        print("replay witness: uncached %s cached %s" % (want, got))
+        return want == got
+    if c.get("kind") == "genraise-threads":
+        from dateutil import rrule as R
+        qs = [tuple(q) for q in c["qs"]]
+        segs = [tuple(x) for x in c["segs"]]
+        res, st = genraise_threads(c["L"], c["k"], qs, segs)
+        u = R.rruleset(cache=False)
+        u.rrule(Flaky(c["L"], c["k"]))
+        want = [rrlib.impl_query(u, q) for q in qs]
+        print("replay threads over a generator raising after %d values: schedule %s -> statuses %s answers %s, uncached %s" % (c["k"], sched.seg_wire(segs), st, res, want))
+        return all(x == "done" for x in st) and res == want
     print("replay: unsupported case")
     return False
